@@ -7,7 +7,9 @@ TRIVIA = [" ", "  ", "\t", "\n", "\r\n", " \n ", "\n\n", " (* c *) ", "(* c *)",
           " (**) ", "\t \t", "(***)", " (* x **) ", "(* a * b *)", " (*) x *) ",
           " (* mehr\nzeilig ü€ *) ", "   (* ü\r\n é日本 *) ", "\n  (* a\n\n  b é *)",
           # line comments (to the end of the line; the line break belongs to them)
-          " // c\n", " // é ü\r\n", "\n// x (* y\n", " //\n", "\t// a // b\n  "]
+          " // c\n", " // é ü\r\n", "\n// x (* y\n", " //\n", "\t// a // b\n  ",
+          # braces are ordinary comment text; and comments whose last line is shorter than their first
+          " (* { *) ", "(* } *)", " (* {x} *) ", " (* äöüäöüäöü\n*) ", "(* 日本日本日本\r\n *)"]
 TRIVIA_FF = ["\f", " \f "]
 
 
